@@ -22,6 +22,13 @@
        flow revealed the three-way result where callers need a two-way verdict (in SignHashed's test
        r + k = n: whether k < n - r).  Repaired by 9a85a34 (branch-free result); the verdict sites are now
        the callers' tests only.
+    4. `SignHashed` tested `len(rkBytes) == 32 && ConstantTimeCmp(rkBytes, nBytes, 32) == 0` on
+       `rkBytes = (r+k).Bytes()` and copied `(1+d).Bytes()` to `buf[32-len(d1Bytes):]`: the byte lengths of
+       r + k and 1 + d steered control flow and a slice bound (the comparison was skipped when
+       r + k >= 2^256, revealing whether k >= 2^256 - r).  The checker accepted this only under the shape
+       hypothesis on math/big results (`OracleRel`); the two-secret harness showed the 99-event difference.
+       Repaired by 3579533 (`big.Int.FillBytes` into fixed 33- and 32-byte buffers: an external call whose
+       result has the shape of its buffer argument, so the hypothesis holds by construction there).
 -/
 import SMGo.Gen.CTIRProg
 open SMGo.Model.CTIR SMGo.Gen.CTIRProg
@@ -46,7 +53,7 @@ theorem failing_Bytes_Unsafe : failing (slice prog f_internal_SM2Point_Bytes_Uns
     variants — and nothing that passes calls them -/
 theorem failing_prog : failing prog sigs =
     [f_internal_SM2Point_GetAffineX_Unsafe, f_internal_SM2Point_bytes, f_internal_SM2Point_bytes_safe_false] := by decide +kernel
-theorem callers_of_unsafe :
+theorem callers_of_modinverse_conversions :
     (List.range prog.length).filter (fun g => match prog[g]? with
       | some fn => (calleesS fn.body).any (fun c => c == f_internal_SM2Point_GetAffineX_Unsafe ||
           c == f_internal_SM2Point_Bytes_Unsafe || c == f_internal_SM2Point_bytes_safe_false || c == f_internal_SM2Point_bytes)
